@@ -1238,6 +1238,7 @@ def part_c_e2e(ctx: Ctx, ncases: int, seqs=None):
             mep.internet.clear()
             W = World(rng)
             dual = (rng.random() < 0.4) if not seqs else bool(seqs[i][1])
+            wide = (rng.random() < 0.3) if not seqs else False
             nodes = [det_node(rng, DHTCommunity) for _ in range(4)]
             for n in nodes:
                 n.overlay.cancel_pending_task("node_maintenance")
@@ -1252,6 +1253,9 @@ def part_c_e2e(ctx: Ctx, ncases: int, seqs=None):
                     specs.append(("str", rng.randrange(3), rng.choice([168, 400, 5000])))   # a server may hold anything
                 if rng.random() < 0.7:
                     specs.append(("sig", 0, rng.randrange(3), rng.choice([1, 2, 3, 4])))
+                if wide:
+                    # a wide lookup: two responders with different values, one with none (the cache candidate)
+                    specs = [] if si == 0 else [("str", 300 + 10 * si + j, 0) for j in range(rng.choice([6, 7, 8]))]
                 if seqs:
                     specs = list(seqs[i][0][si])
                 spec_lists.append(specs)
@@ -1270,6 +1274,8 @@ def part_c_e2e(ctx: Ctx, ncases: int, seqs=None):
                 client.overlay.get_routing_table(rn).add(rn)
             replay = {"part": "E", "servers": spec_lists, "dual": dual}
             ctx.count("C.e2e:dual-stack" if dual else "C.e2e:single-stack")
+            if len(set(held)) > SPEC_MAX_VALUES:
+                ctx.count("C.e2e:more-than-8-distinct-values-held")
             # what the lookup SAW: the values in the find responses that reached the client (not what servers hold)
             seen_vals = []
             orig_notify = client.endpoint.notify_listeners
@@ -1302,6 +1308,13 @@ def part_c_e2e(ctx: Ctx, ncases: int, seqs=None):
             # there by the harness) must be a valid entry
             for idx, n in enumerate(nodes):
                 mine = set() if idx == 0 else {W.blob(sp) for sp in spec_lists[idx - 1]}
+                taken = sum(1 for st in n.overlay.storages.values() for b in st.get(key) if b not in mine)
+                if taken > SPEC_MAX_VALUES:
+                    ctx.oracle_fail("DHTCommunity.store_on_nodes:too-many-stored",
+                                    f"node {idx} took in {taken} values for one key during a single lookup (limit "
+                                    f"{SPEC_MAX_VALUES}) without any store request", replay)
+                if taken:
+                    ctx.count("C.e2e:cached-per-node:%d" % min(taken, 9))
                 for st in n.overlay.storages.values():
                     for b in st.get(key):
                         if b not in mine:
@@ -1334,6 +1347,11 @@ def part_c_e2e(ctx: Ctx, ncases: int, seqs=None):
 def gen_cache_specs(rng):
     n = rng.choice([0, 1, 2, 3, 5, 8, 9, 10, 12])
     specs = [rand_blob_spec(rng) for _ in range(n)]
+    if rng.random() < 0.3:
+        # what a wide lookup hands over: many DISTINCT storable values (each keeps its own id in the storage)
+        base = rng.randrange(1000)
+        specs = [("str", 200 + base + j, 0) for j in range(rng.choice([7, 8, 9, 10, 13, 16]))] + specs[:2]
+        rng.shuffle(specs)
     if rng.random() < 0.8:
         specs = [x for x in specs if x[0] not in ("empty", "trunc", "sig_badkey")]
     if rng.random() < 0.3:
@@ -1401,6 +1419,9 @@ def part_f(ctx: Ctx, ncases: int, use_model: bool, seqs=None):
                 big = [b for b in values if len(b) > SPEC_MAX_SIZE]
                 ctx.count("F.values:n%d" % min(len(values), 12))
                 ctx.count("F.values:with-oversized" if big else "F.values:all-within-size")
+                storable = {b for b in values if len(b) <= SPEC_MAX_SIZE and W.truth[b]["ok"] and W.truth[b]["signer"] is None}
+                if len(storable) > SPEC_MAX_VALUES:
+                    ctx.count("F.values:more-than-8-distinct-storable")
                 small = [b for b in values if len(b) <= SPEC_MAX_SIZE]
                 ctx.count("F.keep:" + ("size-filtered+capped" if big and len(small) > SPEC_MAX_VALUES else
                                        "size-filtered" if big else "capped" if len(small) > SPEC_MAX_VALUES else "all-kept"))
@@ -1683,6 +1704,8 @@ BRANCH_CLASSES = {
                                           "D.mut:first", "D.mut:random", "D.mut:nosig", "D.mut:same"],
     "serialize round trip": ["D.serialize"],
     "keepLocal: size filter": ["F.keep:size-filtered"], "keepLocal: cap": ["F.keep:capped"],
+    "keepLocal: more than 8 distinct storable values offered (direct / by a wide lookup)":
+        ["F.values:more-than-8-distinct-storable", "C.e2e:more-than-8-distinct-values-held"],
     "keepLocal: nothing dropped": ["F.keep:all-kept"],
     "cacheStore: exception in the loop": ["F.store_on_nodes:raised:IndexError", "F.store_on_nodes:raised:PackError",
                                           "F.store_on_nodes:raised:ValueError"],
